@@ -1,5 +1,7 @@
 package main
 
+import "strings"
+
 func init() {
 	register(&PropSpec{
 		ID:          "C10",
@@ -21,6 +23,8 @@ func init() {
 			"PV-ALIAS label values shared with the record's attribute maps are never rewritten in place; PV-PAIR every reported record carries its own stream's resource attributes",
 			"line_format result is a copy; eviction at every step; no unsafe.String; LabelSet.Range visits every label",
 			"MO over the JSON path table; merge iterator rules (totals are conserved)",
+			"AF build range bounds: the sample query covers every step's window, offset included",
+			"PV-CONST the sample selector asks for the evaluator's bounds with no entry limit (a limit would empty the later windows)",
 		},
 		NotDecided: []string{"64-bit hash collisions between distinct encodings", "count conservation as arithmetic"},
 		Rules: func(r *Run) {
@@ -48,6 +52,19 @@ func init() {
 			ruleMO(r, 10, "jsonexpr")
 			ruleMergeIter(r)
 			ruleJSONExprsAllPaths(r)
+			ruleRangeBuild(r)    // samples are fetched for [start-offset-range, end-offset]: the first windows are not empty by construction
+			ruleSamplerParams(r) // the sample stream of a range aggregation is never cut by the entry limit
 		},
 	})
+}
+
+// ruleSamplerParams reuses the C09 sample-selector rule.
+func ruleSamplerParams(r *Run) {
+	sub := newRun(r.Prop, r.P)
+	ruleRangeDetails(sub)
+	for _, o := range sub.Obls {
+		if o.Rule == "PV-CONST" && strings.Contains(o.Construct, "sampleSelector") {
+			r.Obls = append(r.Obls, o)
+		}
+	}
 }
